@@ -1,0 +1,92 @@
+//go:build verif
+
+package simpledb
+
+import (
+	"path/filepath"
+
+	"github.com/thomasjungblut/go-sstables/memstore"
+	"github.com/thomasjungblut/go-sstables/sstables"
+)
+
+// This file only exists under the "verif" build tag. It exports what a verification harness needs to drive
+// flushes and compactions at chosen moments instead of waiting for size triggers and the ticker.
+
+// VerifCompactOnce runs exactly the loop body of backgroundCompaction once, synchronously.
+// It returns the table directories (base names) that were selected, whether a compaction was executed and reflected.
+func (db *DB) VerifCompactOnce() (selected []string, compacted bool, err error) {
+	for _, p := range db.VerifSelect() {
+		selected = append(selected, filepath.Base(p))
+	}
+
+	metadata, err := executeCompaction(db)
+	if err != nil {
+		return selected, false, err
+	}
+
+	if metadata == nil {
+		return selected, false, nil
+	}
+
+	err = db.sstableManager.reflectCompactionResult(metadata)
+	if err != nil {
+		return selected, false, err
+	}
+	return selected, true, nil
+}
+
+// VerifSelect returns what candidateTablesForCompaction currently selects (full paths, in manager order).
+func (db *DB) VerifSelect() []string {
+	action := db.sstableManager.candidateTablesForCompaction(db.compactedMaxSizeBytes, db.compactionRatio)
+	return append([]string{}, action.pathsToCompact...)
+}
+
+// VerifCompactionThreshold returns the configured file threshold.
+func (db *DB) VerifCompactionThreshold() int {
+	return db.compactionFileThreshold
+}
+
+// VerifRotate forces a WAL rotation and hands the current memstore to the flusher, like a size-triggered rotation.
+func (db *DB) VerifRotate() error {
+	db.rwLock.Lock()
+	defer db.rwLock.Unlock()
+	return db.rotateWalAndFlushMemstore()
+}
+
+// VerifFlushBarrier returns once the flusher has finished everything handed to it so far: the flush channel is
+// unbuffered and the flusher only receives again after executeFlush (including addReader) has returned.
+// The empty store sent here is skipped by executeFlush.
+func (db *DB) VerifFlushBarrier() {
+	db.rwLock.Lock()
+	defer db.rwLock.Unlock()
+	empty := memstore.NewMemStore()
+	db.storeFlushChannel <- memStoreFlushAction{memStore: &empty, walPath: ""}
+}
+
+// VerifRotateAndWait is VerifRotate followed by VerifFlushBarrier.
+func (db *DB) VerifRotateAndWait() error {
+	err := db.VerifRotate()
+	if err != nil {
+		return err
+	}
+	db.VerifFlushBarrier()
+	return nil
+}
+
+// VerifTables returns the base names of the live table directories in manager (age) order.
+func (db *DB) VerifTables() []string {
+	db.sstableManager.managerLock.RLock()
+	defer db.sstableManager.managerLock.RUnlock()
+	var out []string
+	for _, r := range db.sstableManager.allSSTableReaders {
+		out = append(out, filepath.Base(r.BasePath()))
+	}
+	return out
+}
+
+// VerifMemstores returns iterators over the write store and the read store (tombstones have nil values).
+func (db *DB) VerifMemstores() (writeStore sstables.SSTableIteratorI, readStore sstables.SSTableIteratorI) {
+	db.rwLock.RLock()
+	defer db.rwLock.RUnlock()
+	return db.memStore.writeStore.SStableIterator(), db.memStore.readStore.SStableIterator()
+}
